@@ -15,7 +15,7 @@ PROP = "C03"
 SHARDS = {"quick": 8, "thorough": 16}
 TIME_CAP = {"quick": 70, "thorough": 900}
 RECURSION_LIMIT = 3000
-REQUIRED = ["returned", "rejected", "programs", "hostile_calls", "coerce_calls", "no_copy_calls", "purity_checks", "class_fp_checks", "step_counted_calls", "deep_calls", "digraph_calls"]
+REQUIRED = ["probe_type_calls", "returned", "rejected", "programs", "hostile_calls", "coerce_calls", "no_copy_calls", "purity_checks", "class_fp_checks", "step_counted_calls", "deep_calls", "digraph_calls"]
 RULE = ("C01 program space x {type-relevant atoms, hostile non-JSON objects (NaN/inf, 10**400, str/int/float/list/dict subclasses, tuples, bytes, sets, "
         "non-string / mixed / unhashable keys and values, lone surrogates) substituted at every position of model-valid data, random non-JSON trees, "
         "nesting up to depth 2000 on recursive types} x coerce x additional_properties x fall_back_on_default x no_copy. "
@@ -249,6 +249,62 @@ def check_program(env, prog, steps, hostile, label, ndata):
     env.count("programs")
 
 
+PROBE_TYPES = [
+    # well-formed types whose acceptance the reference model does not decide (Any inside sets / as key, float multipleOf,
+    # constraints given twice): crash-freedom needs no model
+    "Set[Any]", "FrozenSet[Any]", "Set[Union[int, Any]]", "Dict[Any, int]", "List[Set[Any]]", "Dict[str, FrozenSet[Any]]", "Optional[Set[Any]]",
+    "Annotated[int, schema(mult_of=0.5)]", "Annotated[float, schema(mult_of=0.1)]", "Annotated[Annotated[int, schema(mult_of=2)], schema(mult_of=3)]",
+    "List[Annotated[int, schema(mult_of=0.25, min=0)]]", "Annotated[Any, schema(mult_of=0.5, min_len=1, min_items=1, min_props=1)]",
+    "Annotated[Any, schema(unique=True)]", "Annotated[List[Any], schema(unique=True)]", "Tuple[Any, ...]", "Mapping[str, Any]",
+    "Annotated[Union[int, str, None], schema(min=0, max_len=2)]", "Dict[Annotated[str, schema(pattern='^a')], Any]",
+]
+
+
+def check_probe_types(env, steps):
+    import sys
+    import types
+    from apischema import deserialization_method
+    from vf.spec import PRELUDE
+
+    rng = env.rng
+    mod = types.ModuleType(f"vfprobe_{env.shard}")
+    sys.modules[mod.__name__] = mod
+    exec(compile(PRELUDE, "<vfprobe>", "exec"), mod.__dict__)
+    big = 10 ** 400
+    data = [None, True, 0, -1, 1.5, float("nan"), float("inf"), big, -big, "", "a", "12", [], [[]], [[1], [1]], [{}], [{"a": 1}, {"a": 1}], [1, "a", None, 2.5], [big, 1e308],
+            {}, {"a": []}, {"a": {"b": [1]}}, {1: 2}, {None: 1}, {(1, 2): 3}, [float("nan"), float("nan")], [0, -0.0, False], [[1, 2], [2, 1]], (1, 2), {1, 2}, b"x", object()]
+    try:
+        for i, expr in enumerate(PROBE_TYPES):
+            if i % env.nshards != env.shard % len(PROBE_TYPES) and env.nshards <= len(PROBE_TYPES):
+                continue
+            T = eval(expr, mod.__dict__)
+            for coerce in (False, True):
+                for no_copy in (True, False):
+                    harness.reset_all()
+                    om = harness.call(deserialization_method, T, coerce=coerce, no_copy=no_copy)
+                    if om.kind != "ok":
+                        env.violation({"kind": "compile", "family": "probe-types", "exc": om.exc or "ValidationError", "site": om.site}, {"type": expr, "outcome": om.brief()})
+                        continue
+                    for d in data:
+                        fp = fingerprint(d)
+                        real = steps.run(om.value, d, 400_000)
+                        env.count("probe_type_calls")
+                        env.case("probe", expr, coerce, no_copy, repr(d)[:80])
+                        if real.kind == "exc":
+                            env.violation({"kind": "exception", "exc": real.exc, "coerce": coerce, "site": real.site, "family": "probe-types"},
+                                          {"program": PRELUDE + f"\nT = {expr}\n", "type": expr, "options": {"coerce": coerce, "no_copy": no_copy}, "datum": d, "observed": real.brief()})
+                        elif real.kind == "verr":
+                            try:
+                                json.dumps(real.errors)
+                                str(real.error)
+                            except Exception as e:
+                                env.violation({"kind": "errors-not-json", "exc": type(e).__name__, "family": "probe-types"}, {"type": expr, "datum": d, "errors": repr(real.errors)[:500]})
+                        if fingerprint(d) != fp:
+                            env.violation({"kind": "input-mutated", "no_copy": no_copy, "family": "probe-types"}, {"type": expr, "datum": d})
+    finally:
+        sys.modules.pop(mod.__name__, None)
+
+
 def check_digraph(env, j):
     """mutually recursive classes with overlapping cycles (random digraph), first uses in random order, shallow data:
     compiling / analysing the recursion must never end in RecursionError"""
@@ -301,6 +357,7 @@ def run(env):
     rng = env.rng
     steps = Steps()
     hostile = gen_data.hostile_atoms()
+    check_probe_types(env, steps)
     for j in range(env.n(400, 8000)):
         check_digraph(env, j)
     n = env.n(2600, 60000)
